@@ -60,6 +60,9 @@ func (t *clientTrackProcessorFMP4) initialize() error {
 		t.decodePayload = func(sample *fmp4.PartSample) ([][]byte, error) {
 			return [][]byte{sample.Payload}, nil
 		}
+
+	default:
+		return fmt.Errorf("unsupported codec")
 	}
 
 	t.queue = make(chan *procEntryFMP4)
